@@ -46,6 +46,16 @@ def main():
         r1 = sh(f"/venv/bin/python {demo}", env=env, cwd=a.src)
         out["validated"]["demo_clean_exit"] = r1.returncode
         r2 = sh(f"git -C {scratch} apply {os.path.abspath(os.path.join(a.src, 'patch.diff'))}")
+        if r2.returncode != 0:
+            # written against an older HEAD of /repo (before later fix: commits): three-way merge, then
+            # keep the rebased patch as the one that is stored
+            r2 = sh(f"git -C {scratch} apply --3way {os.path.abspath(os.path.join(a.src, 'patch.diff'))}")
+            if r2.returncode == 0:
+                reb = sh(f"git -C {scratch} diff HEAD").stdout
+                sh(f"git -C {scratch} reset -q")
+                shutil.copy(os.path.join(a.src, 'patch.diff'), os.path.join(a.src, 'patch.orig.diff'))
+                open(os.path.join(a.src, 'patch.diff'), 'w').write(reb)
+                out["validated"]["rebased_onto"] = sh("git -C /repo rev-parse --short HEAD").stdout.strip()
         out["validated"]["patch_applies"] = r2.returncode == 0
         if r2.returncode != 0:
             out["validated"]["patch_error"] = r2.stderr[-500:]
